@@ -35,6 +35,7 @@ type Writer struct {
 	err         error
 	scratch     [4]byte
 	wroteHeader bool
+	closed      bool
 }
 
 // NewWriter creates a new Writer.
@@ -88,6 +89,7 @@ func (z *Writer) Reset(w io.Writer) {
 	z.err = nil
 	z.scratch = [4]byte{}
 	z.wroteHeader = false
+	z.closed = false
 }
 
 // writeHeader writes the ZLIB header.
@@ -176,6 +178,13 @@ func (z *Writer) Flush() error {
 // Close closes the Writer, flushing any unwritten data to the underlying
 // io.Writer, but does not close the underlying io.Writer.
 func (z *Writer) Close() error {
+	if z.err != nil {
+		return z.err
+	}
+	if z.closed {
+		return nil
+	}
+	z.closed = true
 	if !z.wroteHeader {
 		z.err = z.writeHeader()
 	}
